@@ -1,0 +1,24 @@
+//go:build verif
+
+package badger
+
+import "os"
+
+// VerifWrapManifestSync wraps manifest.go's package variable syncFunc (the fsync that
+// manifestFile.addChanges issues after appending a change set): `after` is called every time
+// the production code really calls syncFunc, right after the underlying fsync returned, with
+// its error.  It gives the C10 harness a ground truth for MANIFEST syncs that does not depend on
+// where the persist.manifest.* hooks are placed (those fire whether or not the fsync ran).
+// The returned function restores the previous syncFunc.  Not safe to call concurrently with a
+// running DB: install it before Open.
+func VerifWrapManifestSync(after func(err error)) (restore func()) {
+	orig := syncFunc
+	syncFunc = func(f *os.File) error {
+		err := orig(f)
+		if after != nil {
+			after(err)
+		}
+		return err
+	}
+	return func() { syncFunc = orig }
+}
